@@ -203,3 +203,58 @@ c09_harness!(c07_scripted_body_path, {
     kani::cover!(r0 == CoroutineState::Cancelled, "cancelled in the first step");
     core::mem::forget(co);
 });
+
+
+// ---------------------------------------------------------------------------------------- C25 (owner side)
+// "values still stored are dropped when the coroutine is dropped": the coroutine-local storage is a field of the
+// coroutine; this harness drops a real `Coroutine` (never started / suspended mid-body / completed / cancelled - symbolic)
+// that holds two values with a counting destructor. The map operations themselves are decided in c25_local.rs.
+static mut C25_CREATED: u32 = 0x255;
+static mut C25_DROPPED: u32 = 0x256;
+struct Counted(u8);
+impl Drop for Counted {
+    fn drop(&mut self) {
+        unsafe { C25_DROPPED += 1 };
+    }
+}
+fn counted(x: u8) -> Counted {
+    unsafe { C25_CREATED += 1 };
+    Counted(x)
+}
+
+c09_harness!(c25_dropped_with_the_coroutine, {
+    unsafe {
+        C25_CREATED = 0;
+        C25_DROPPED = 0;
+        VNOW = u64::MAX;
+    }
+    any_plan(5);
+    unsafe {
+        kani::assume(PLAN[0][0].kind != 3 && PLAN[0][0].kind != 4);
+    }
+    corosensei::verif_reset_script_ids();
+    corosensei::verif_set_step_hook(Some(interpreter));
+    let mut co = new_co("a");
+    kani::assert(co.put("k1", counted(1)).is_none(), "first value stored");
+    kani::assert(co.put("k2", counted(2)).is_none(), "second value stored");
+    let resumed: bool = kani::any();
+    let mut state = CoroutineState::Ready;
+    if resumed {
+        state = co.resume().expect("resume");
+    }
+    // still visible through the coroutine, whatever its state
+    kani::assert(co.get::<Counted>("k1").map(|v| v.0) == Some(1), "a stored value stays readable through its coroutine");
+    let replaced = co.put("k1", counted(3));
+    kani::assert(replaced.map(|v| v.0) == Some(1), "put returns the previous value");
+    unsafe {
+        kani::assert(C25_DROPPED == 1, "the replaced value is dropped once its Option is dropped");
+    }
+    drop(co);
+    unsafe {
+        kani::assert(C25_DROPPED == C25_CREATED, "values still stored are dropped with the coroutine, in whatever state it is dropped");
+    }
+    kani::cover!(!resumed, "dropped before it ever ran");
+    kani::cover!(matches!(state, CoroutineState::Suspend((), _)), "dropped while suspended mid-body");
+    kani::cover!(matches!(state, CoroutineState::Complete(_)), "dropped after completion");
+    kani::cover!(state == CoroutineState::Cancelled, "dropped after being cancelled");
+});
